@@ -276,7 +276,7 @@ fn run(prefix: u8, segs: &[RipSeg], alive: &[usize], rep: &Reporter) -> Run {
         }
     });
     if let Err((sig, msg)) = r {
-        out.panic = Some((cur.get(), Fail { key: sig, msg: format!("{msg} (while executing {})", if cur.get() < segs.len() { family(&segs[cur.get()]) } else { "the picture read-out / set-up".to_string() }) }));
+        out.panic = Some((cur.get(), Fail { key: crate::common::normalise_panic_key(&sig), msg: format!("{msg} (while executing {})", if cur.get() < segs.len() { family(&segs[cur.get()]) } else { "the picture read-out / set-up".to_string() }) }));
     }
     out
 }
